@@ -377,6 +377,14 @@ pub fn gzip(path_in: &Path, path_out: &Path) {
     e.finish().expect("gz finish");
 }
 
+/// compress a file with bzip2 or xz through python3's standard library (needletail reads both; the harness has no
+/// crate for them). Returns false when python3 is not available (the caller then keeps the plain file).
+pub fn compress_external(path_in: &Path, path_out: &Path, format: &str) -> bool {
+    let module = if format == "xz" { "lzma" } else { "bz2" };
+    let code = format!("import {module},sys\nopen(sys.argv[2],'wb').write({module}.compress(open(sys.argv[1],'rb').read()))");
+    Command::new("python3").arg("-c").arg(code).arg(path_in).arg(path_out).stdin(Stdio::null()).stdout(Stdio::null()).stderr(Stdio::null()).status().map(|s| s.success()).unwrap_or(false) && path_out.exists()
+}
+
 /// gzip in `members` concatenated members (a valid gzip file: `cat a.gz b.gz`, bgzip, merged lanes)
 pub fn gzip_members(path_in: &Path, path_out: &Path, members: usize) {
     use flate2::write::GzEncoder;
